@@ -81,6 +81,14 @@ func VerifC10Read() {
 	L := vParamInt("L")
 	isIPA := vParamInt("ipa") == 1
 	data := vBytes("d", L)
+	if !vSymbolic() && vParamInt("badpoint") == 1 && L >= 64 {
+		// concrete realisation of "an invalid point in some position": a well-formed stream (identity encodings,
+		// zero scalar) whose second field is a curve point outside the prime-order subgroup
+		for i := range data {
+			data[i] = 0
+		}
+		copy(data[32:64], c10nonSubgroupPoint())
+	}
 	rd := &c10Reader{data: data, chunk: vParamInt("chunk"), eofWithData: vParamInt("eofdata") == 1}
 	vProtect(data, "input bytes")
 	need := 576
@@ -169,4 +177,18 @@ func VerifC10WriteRead() {
 		}
 	}
 	vReach("end")
+}
+
+// c10nonSubgroupPoint: 32 bytes accepted by the unchecked decoder (on the curve) but rejected by the validating one.
+func c10nonSubgroupPoint() []byte {
+	for k := 1; k < 100000; k++ {
+		b := make([]byte, 32)
+		b[31] = byte(k)
+		b[30] = byte(k >> 8)
+		var p, q banderwagon.Element
+		if p.SetBytesUnsafe(b) == nil && q.SetBytes(b) != nil {
+			return b
+		}
+	}
+	panic("no point outside the subgroup found")
 }
